@@ -17,12 +17,15 @@ package verifsync
 
 import (
 	"fmt"
+	"math"
 	"math/rand"
+	"reflect"
 	"runtime"
 	"sort"
 	"strings"
 	"sync"
 	"sync/atomic"
+	"time"
 )
 
 // ---------------------------------------------------------------- lock state
@@ -65,6 +68,7 @@ func (l *lockState) take(m mode, t *Task) {
 
 // Task is a goroutine known to the simulator.
 type Task struct {
+	spawned int // goroutines started by this task through Go
 	ID    int // order of first appearance: deterministic when the execution is
 	Gid   uint64
 	Label string
@@ -132,6 +136,9 @@ type Sim struct {
 	SchedHash uint64 // rolling hash of grant decisions
 }
 
+// DebugDraws adds the yield draws to the schedule trace.
+var DebugDraws bool
+
 var cur atomic.Pointer[Sim]
 
 // Cur returns the installed simulator or nil.
@@ -143,6 +150,9 @@ func Install(s *Sim) { cur.Store(s) }
 // New creates a simulator.
 func New(cfg Config) *Sim {
 	s := &Sim{cfg: cfg, sched: cfg.Scheduled, rng: rand.New(rand.NewSource(cfg.Seed)), tasks: map[uint64]*Task{}, change: map[int64]bool{}, TraceCap: 4000}
+	if DebugDraws {
+		s.TraceCap = 200000
+	}
 	if cfg.Horizon <= 0 {
 		cfg.Horizon = 2000
 		s.cfg.Horizon = 2000
@@ -183,6 +193,9 @@ func (s *Sim) SetScheduled(on bool) {
 
 func (s *Sim) Scheduled() bool { s.mu.Lock(); defer s.mu.Unlock(); return s.sched }
 
+// Goid returns the id of the calling goroutine.
+func Goid() uint64 { return goid() }
+
 func goid() uint64 {
 	var buf [40]byte
 	n := runtime.Stack(buf[:], false)
@@ -196,6 +209,44 @@ func goid() uint64 {
 		id = id*10 + uint64(c-'0')
 	}
 	return id
+}
+
+// Go replaces the go statements of the instrumented copy (tools/rewrite,
+// rewriteGo). With a simulator installed the new goroutine is registered at the
+// spawn point, by the spawning goroutine: its identity is the spawn order and
+// its priority is a function of the seed, the parent and the parent's spawn
+// count, not of which goroutine reaches its first decision point first. In
+// scheduled mode it parks before its first instruction.
+func Go(f func()) {
+	s := Cur()
+	if s == nil {
+		go f()
+		return
+	}
+	s.mu.Lock()
+	parent := s.task()
+	parent.spawned++
+	s.ntasks++
+	h := uint64(s.cfg.Seed) ^ uint64(parent.ID)*0x9E3779B97F4A7C15 ^ uint64(parent.spawned)*0xC2B2AE3D27D4EB4F
+	h ^= h >> 31
+	h *= 0xD6E8FEB86659FD93
+	h ^= h >> 29
+	child := &Task{ID: s.ntasks, Prio: 1000 + int(h%1000000)}
+	s.mu.Unlock()
+	go func() {
+		s.mu.Lock()
+		child.Gid = goid()
+		s.tasks[child.Gid] = child
+		if !s.sched {
+			s.mu.Unlock()
+			f()
+			return
+		}
+		tk := s.park(child, "pre", "spawn", nil, 0, nil)
+		s.mu.Unlock()
+		<-tk.ch
+		f()
+	}()
 }
 
 // task returns the Task of the calling goroutine (mu held).
@@ -237,8 +288,12 @@ func (s *Sim) shouldYield(t *Task) bool {
 		t.Prio = s.lowPrio
 		return true
 	}
-	if s.cfg.YieldProb > 0 && s.rng.Float64() < s.cfg.YieldProb {
-		return true
+	if s.cfg.YieldProb > 0 {
+		y := s.rng.Float64() < s.cfg.YieldProb
+		if DebugDraws && len(s.Trace) < s.TraceCap {
+			s.Trace = append(s.Trace, fmt.Sprintf("draw %s steps=%d yield=%v", t, s.steps, y))
+		}
+		return y
 	}
 	return false
 }
@@ -290,7 +345,11 @@ func (s *Sim) decision(what string) {
 		return
 	}
 	t := s.task()
-	s.steps++
+	if s.cur == t {
+		// only the running task advances the step counter (change points and yields are
+		// drawn per step): a goroutine that arrives while another one runs must not shift them
+		s.steps++
+	}
 	if s.cur == t && !s.shouldYield(t) {
 		s.mu.Unlock()
 		return
@@ -336,6 +395,9 @@ func (s *Sim) acquire(lk *lockState, m mode, what string) {
 	if lk.can(m) {
 		t := s.task()
 		lk.take(m, t)
+		if DebugDraws && len(s.Trace) < s.TraceCap {
+			s.Trace = append(s.Trace, fmt.Sprintf("take %s lock#%d mode=%d cur=%s", t, lk.id, m, s.cur))
+		}
 		s.mu.Unlock()
 		return
 	}
@@ -345,6 +407,9 @@ func (s *Sim) acquire(lk *lockState, m mode, what string) {
 		lk.pendW++
 	}
 	s.Blocks++
+	if DebugDraws && len(s.Trace) < s.TraceCap {
+		s.Trace = append(s.Trace, fmt.Sprintf("block %s on lock#%d mode=%d writer=%v(owner %s) readers=%d(%v)", t, lk.id, m, lk.writer, lk.owner, lk.readers, lk.rown))
+	}
 	tk := s.park(t, "lock", what, lk, m, nil)
 	lk.waiters = append(lk.waiters, tk)
 	s.mu.Unlock()
@@ -672,4 +737,256 @@ func (o *Once) Do(f func()) {
 		s.mu.Unlock()
 	}()
 	f()
+}
+
+// ---------------------------------------------------------------- select arbitration
+
+// The instrumented copy polls the cases of a multi-way select in clause order or
+// in reverse clause order before it blocks (tools/rewrite, rewriteSelects).
+// SelFlip picks the order from the run seed, the site and a per-site counter, so
+// that which of several ready cases is taken is repeatable; with no seed set the
+// order is clause order.
+var selMu sync.Mutex
+var selSeed uint64
+var selCount = map[uint32]uint32{}
+
+// SetSelSeed starts a run: seed 0 switches the seeded choice off.
+func SetSelSeed(seed uint64) {
+	selMu.Lock()
+	selSeed = seed
+	selCount = map[uint32]uint32{}
+	tickerSeq.Store(0)
+	selMu.Unlock()
+}
+
+// SelFlip reports whether the select at site polls its cases in clause order.
+func SelFlip(site uint32) bool {
+	selMu.Lock()
+	seed := selSeed
+	c := selCount[site]
+	selCount[site] = c + 1
+	selMu.Unlock()
+	if seed == 0 {
+		return true
+	}
+	h := seed ^ uint64(site)*0x9E3779B97F4A7C15 ^ uint64(c)*0xC2B2AE3D27D4EB4F
+	h ^= h >> 31
+	h *= 0xD6E8FEB86659FD93
+	h ^= h >> 29
+	return h&1 == 0
+}
+
+// SelBlock marks the blocking select that follows a poll sequence (the rewriter
+// skips statements it precedes).
+func SelBlock() {}
+
+// ---------------------------------------------------------------- map iteration order
+
+// MapIter is what "for k, v := range m" over a map becomes in the instrumented
+// copy (tools/rewrite, rewriteMapRanges).
+type MapIter[K comparable, V any] struct {
+	m    map[K]V
+	keys []K
+	i    int
+	k    K
+	v    V
+}
+
+// RangeMap snapshots the keys of m in an order that is a function of the run
+// seed (SetSelSeed): sorted by a seeded hash of the key, ties by the key itself.
+// Keys that cannot be ordered (channels, pointers, interfaces ...) stay in the
+// order Go's own iteration produced.
+func RangeMap[M ~map[K]V, K comparable, V any](m M) *MapIter[K, V] {
+	it := &MapIter[K, V]{m: m}
+	if len(m) == 0 {
+		return it
+	}
+	it.keys = make([]K, 0, len(m))
+	for k := range m {
+		it.keys = append(it.keys, k)
+	}
+	orderKeys(it.keys)
+	return it
+}
+
+// Next advances to the next key that is still in the map.
+func (it *MapIter[K, V]) Next() bool {
+	for it.i < len(it.keys) {
+		k := it.keys[it.i]
+		it.i++
+		if v, ok := it.m[k]; ok {
+			it.k, it.v = k, v
+			return true
+		}
+	}
+	return false
+}
+
+func (it *MapIter[K, V]) Key() K { return it.k }
+func (it *MapIter[K, V]) Val() V { return it.v }
+
+func mix64(h uint64) uint64 {
+	h ^= h >> 31
+	h *= 0xD6E8FEB86659FD93
+	h ^= h >> 29
+	h *= 0x9E3779B97F4A7C15
+	h ^= h >> 32
+	return h
+}
+
+func orderKeys[K comparable](keys []K) {
+	if len(keys) < 2 {
+		return
+	}
+	selMu.Lock()
+	seed := selSeed
+	selMu.Unlock()
+	type ent struct {
+		h uint64
+		s string
+		n uint64
+		f float64
+	}
+	ents := make([]ent, len(keys))
+	kind := 0 // 1 string-like, 2 unsigned/signed integer, 3 float
+	for i := range keys {
+		var e ent
+		switch v := any(keys[i]).(type) {
+		case string:
+			kind, e.s = 1, v
+		case int:
+			kind, e.n = 2, uint64(v)^(1<<63)
+		case int8:
+			kind, e.n = 2, uint64(v)^(1<<63)
+		case int16:
+			kind, e.n = 2, uint64(v)^(1<<63)
+		case int32:
+			kind, e.n = 2, uint64(v)^(1<<63)
+		case int64:
+			kind, e.n = 2, uint64(v)^(1<<63)
+		case uint:
+			kind, e.n = 2, uint64(v)
+		case uint8:
+			kind, e.n = 2, uint64(v)
+		case uint16:
+			kind, e.n = 2, uint64(v)
+		case uint32:
+			kind, e.n = 2, uint64(v)
+		case uint64:
+			kind, e.n = 2, v
+		case uintptr:
+			kind, e.n = 2, uint64(v)
+		case bool:
+			kind = 2
+			if v {
+				e.n = 1
+			}
+		case float32:
+			kind, e.f = 3, float64(v)
+		case float64:
+			kind, e.f = 3, v
+		default:
+			rv := reflect.ValueOf(keys[i])
+			switch rv.Kind() {
+			case reflect.String:
+				kind, e.s = 1, rv.String()
+			case reflect.Int, reflect.Int8, reflect.Int16, reflect.Int32, reflect.Int64:
+				kind, e.n = 2, uint64(rv.Int())^(1<<63)
+			case reflect.Uint, reflect.Uint8, reflect.Uint16, reflect.Uint32, reflect.Uint64, reflect.Uintptr:
+				kind, e.n = 2, rv.Uint()
+			case reflect.Float32, reflect.Float64:
+				kind, e.f = 3, rv.Float()
+			case reflect.Struct, reflect.Array:
+				if !plainData(rv.Type()) {
+					return
+				}
+				kind, e.s = 1, fmt.Sprintf("%#v", keys[i])
+			default:
+				return // not orderable in a repeatable way: keep Go's order
+			}
+		}
+		switch kind {
+		case 1:
+			h := uint64(14695981039346656037) ^ seed
+			for j := 0; j < len(e.s); j++ {
+				h ^= uint64(e.s[j])
+				h *= 1099511628211
+			}
+			e.h = mix64(h)
+		case 2:
+			e.h = mix64(e.n ^ seed*0x9E3779B97F4A7C15)
+		case 3:
+			e.h = mix64(math.Float64bits(e.f) ^ seed*0x9E3779B97F4A7C15)
+		}
+		if seed == 0 {
+			e.h = 0
+		}
+		ents[i] = e
+	}
+	idx := make([]int, len(keys))
+	for i := range idx {
+		idx[i] = i
+	}
+	sort.SliceStable(idx, func(a, b int) bool {
+		x, y := ents[idx[a]], ents[idx[b]]
+		if x.h != y.h {
+			return x.h < y.h
+		}
+		switch kind {
+		case 1:
+			return x.s < y.s
+		case 2:
+			return x.n < y.n
+		default:
+			return x.f < y.f
+		}
+	})
+	out := make([]K, len(keys))
+	for i, j := range idx {
+		out[i] = keys[j]
+	}
+	copy(keys, out)
+}
+
+// plainData reports whether values of t print the same in every process (no
+// pointers, channels, maps, funcs or interfaces inside).
+func plainData(t reflect.Type) bool {
+	switch t.Kind() {
+	case reflect.Bool, reflect.Int, reflect.Int8, reflect.Int16, reflect.Int32, reflect.Int64,
+		reflect.Uint, reflect.Uint8, reflect.Uint16, reflect.Uint32, reflect.Uint64, reflect.Uintptr,
+		reflect.Float32, reflect.Float64, reflect.String:
+		return true
+	case reflect.Array:
+		return plainData(t.Elem())
+	case reflect.Struct:
+		for i := 0; i < t.NumField(); i++ {
+			if !plainData(t.Field(i).Type) {
+				return false
+			}
+		}
+		return true
+	}
+	return false
+}
+
+// ---------------------------------------------------------------- tickers
+
+var tickerSeq atomic.Int64
+
+// NewTicker replaces time.NewTicker in the instrumented copy: with a run seed
+// set, the period is lengthened by 1-997 ns, a different amount for each ticker
+// of the run in creation order. Tickers that the engine creates at the same
+// instant with commensurable periods (100 ms, 1 s, ...) would otherwise fire at
+// the same simulated instant, and which of them a blocked select receives first
+// is decided inside the runtime. A timer that fires a few nanoseconds late is
+// ordinary behaviour of a real clock.
+func NewTicker(d time.Duration) *time.Ticker {
+	selMu.Lock()
+	seed := selSeed
+	selMu.Unlock()
+	if seed == 0 || d <= 0 {
+		return time.NewTicker(d)
+	}
+	k := tickerSeq.Add(1)
+	return time.NewTicker(d + time.Duration((k*37)%997+1))
 }
